@@ -13,7 +13,7 @@ from ..model import AnalysisError, FunctionInfo, bind_args, param_default
 from ..roles import roles_of
 from ..symb import Translator, Untranslatable, is_zero
 from ..terms import call_name, canon, cmp_normal, const_num, conjuncts, dotted, guard_of, is_np_call, linear, norm_stmt
-from .common import attr_stores, int_le_form, iter_stores, kw, literal_shape_first_dim, reaching_assignments, self_attr_of, shape_rank, store_base
+from .common import attr_stores, int_le_form, iter_stores, kw, literal_shape_first_dim, reaching_assignments, self_attr_of, shape_rank, store_base, pos
 
 EXPLANATION = (
     "Static rules over FunctionLogger: R1 the row index of a merge/no-record lookup is derived from a rank-1 row mask "
@@ -572,7 +572,7 @@ def check(ctx):
         ctx.missing(rec, "merge path storing Y and S of an existing row")
     else:
         idx = path_kind.get(merge)
-        stmts = sorted({id(s): s for a, t, v, s, k in groups[merge]}.values(), key=lambda s: s.lineno)
+        stmts = sorted({id(s): s for a, t, v, s, k in groups[merge]}.values(), key=pos)
         block = None
         for p in prog.ancestors(stmts[0]):
             if hasattr(p, "body") and isinstance(p.body, list) and stmts[0] in p.body:
@@ -581,7 +581,7 @@ def check(ctx):
         try:
             tr = Translator(strip_index=lambda sl: canon(sl) == idx, positive=["self.S", params[3], "self.n_evals"])
             y0, s0, f, sd = tr.sym("self.Y"), tr.sym("self.S"), tr.sym(params[2]), tr.sym(params[3])
-            straight = [s for s in block if isinstance(s, (ast.Assign, ast.AugAssign)) and s.lineno <= max(x.lineno for x in stmts)]
+            straight = [s for s in block if isinstance(s, (ast.Assign, ast.AugAssign)) and pos(s) <= max(pos(x) for x in stmts)]
             tr.run(straight)
             ynew = tr.env.get("self.Y")
             snew = tr.env.get("self.S")
